@@ -78,7 +78,7 @@ static void child(const std::string& line, const char* outpath) {
     Ev("reset").emit(out);
     vsched::set_abort_handler([&](vsched::Result& r) {
         Ev e("sort"); e.arr("keys", keys).raw("out", "[]").boolean("stable", false).num("live_delta", 0).num("problems", (long long)r.problems.size() + 1).boolean("deadlock", true);
-        e.emit(out); out.flush(); _exit(0);
+        e.emit(out); out.flush(); { vf::cov_flush(); _exit(0); }
     });
     static const int TH[] = {1, 2, 3, 4, 5, 7, 8, 16, 20};
     uint64_t x = seed * 2654435761u + 99;
@@ -88,7 +88,7 @@ static void child(const std::string& line, const char* outpath) {
     for (int stable = 0; stable < 2; ++stable) for (int mwmsa = 0; mwmsa < 2; ++mwmsa) for (int rep = 0; rep < 2; ++rep)
         one(out, keys, stable, mwmsa, rep == 0 ? TH[rnd(5)] : TH[rnd(9)], OS[rnd(3)], x, ST[rnd(4)], 2 + rnd(3));
     out.flush();
-    _exit(0);
+    { vf::cov_flush(); _exit(0); }
 }
 
 int main(int argc, char** argv) {
